@@ -81,6 +81,10 @@ CHECKS = {
                 text="every reserved word x letter case x bare-name position is rejected and benign/aliased names are not; every supplied-vs-used placeholder subset relation, every key-condition shape, every batch size 1..27 and malformed write request is judged by the rule table, in both SDK clients",
                 note="573 words pinned from the pinned commit; placeholder universe {#a,#ab,#b} x {:a,:ab,:b}; two recorded findings (placeholder validation by substring, key-condition shape not validated)",
                 ref="DESIGN.md 3/C16"),
+    "C20": dict(engine="E2", technique=E2 + " over registration sets x requests x activation configurations",
+                text="for every set of up to two registrations, every request and every activation configuration, exactly the expected callback fires and its verdict/mutation is used; unregistered conditions fall back to the built-in result, unregistered updates fail with the unsupported-feature error and leave the item unchanged; nothing fires when the native interpreter is not active",
+                note="2 tables x 4 kinds x 5 texts (whitespace variants, a character permutation, different texts); quick: pairs of the same kind, thorough: all ordered pairs; 6 configurations; both SDK clients",
+                ref="DESIGN.md 3/C20"),
 }
 
 PENDING = {}
